@@ -51,6 +51,7 @@ func recCross(args []string) {
 	out := fs.String("out", "", "")
 	from := fs.String("from", "", "")
 	line := fs.Int("line", 0, "")
+	first := fs.Int("first", 0, "re-record the lines first..line in order (0: only line)")
 	fs.Parse(args)
 	f, err := os.Create(*out)
 	if err != nil {
@@ -68,7 +69,7 @@ func recCross(args []string) {
 		sc := bufio.NewScanner(in)
 		sc.Buffer(make([]byte, 1<<20), 1<<24)
 		for k := 1; sc.Scan(); k++ {
-			if k != *line {
+			if k > *line || k < *line && (*first == 0 || k < *first) {
 				continue
 			}
 			var e struct {
